@@ -77,12 +77,21 @@ Theorem C14_retry_fresh_nonce : forall H HMAC hsize precis cfg id st r1 r2 rands
 Proof. exact scram_two_attempts_two_draws. Qed.
 Print Assumptions C14_retry_fresh_nonce.
 
-(* NOT PROVED (kept visible): pbkdf2.Key = RFC 5802 Hi for keyLen = hashLen and iter >= 1, and the end-to-end
-   statement through the base64 framing (needs b64dec (b64enc x) = Some x for byte strings):
-     forall H HMAC n pw salt i, (forall k m, length (HMAC k m) = n) -> (0 < n)%nat -> (1 <= i)%nat ->
-       pbkdf2_key HMAC pw salt (Z.of_nat i) n n = Hi HMAC pw salt i.
-   Both are covered by the correspondence only (kind pbkdf2 against the reference Hi, RFC 6070 / 5802 / 7677 vectors,
-   and the full exchanges against the reference SCRAM server).  Concrete instances by computation: *)
+(* internal/pbkdf2.Key (block loop, U/T xor loop, transliterated in Scram.pbkdf2_key) is RFC 5802's Hi when the key
+   length is the hash length (one block), for every HMAC with outputs of one length and every iteration count >= 1 *)
+Theorem C14_pbkdf2_is_Hi : forall (HMAC : bytes -> bytes -> bytes) (n : nat) pw salt (i : nat),
+  (forall key m, length (HMAC key m) = n) -> (0 < n)%nat -> (1 <= i)%nat ->
+  pbkdf2_key HMAC pw salt (Z.of_nat i) n n = Hi HMAC pw salt i.
+Proof. exact pbkdf2_is_Hi. Qed.
+Print Assumptions C14_pbkdf2_is_Hi.
+
+(* NOT PROVED (kept visible): the end-to-end statement through the message assembly and the base64 framing,
+     the client-final-message produced by handle_server_first for an honest server-first is accepted by
+     Sasl.server_final (store H HMAC pw salt i) and the server-final it returns is accepted by handle_server_final;
+   the ingredients are proved (C14_scram_proof_accepted, C14_scram_server_signature_expected, C14_pbkdf2_is_Hi,
+   C14_saslname_*, CodecProofs.b64_roundtrip); what is missing is the comma-splitting of the assembled messages.
+   It is covered by the correspondence (full exchanges against the reference SCRAM server, RFC 5802 / 7677 vectors).
+   Concrete instances of pbkdf2.Key = Hi by computation: *)
 Example C14_pbkdf2_is_Hi_instances :
   pbkdf2_key hmac_sha1 (bs "password") (bs "salt") 2 20 20 = Hi hmac_sha1 (bs "password") (bs "salt") 2 /\
   pbkdf2_key hmac_sha256 (bs "pencil") (bs "saltSALT") 3 32 32 = Hi hmac_sha256 (bs "pencil") (bs "saltSALT") 3 /\
